@@ -162,6 +162,10 @@ def run(ctx):
     def gen_range():
         unit = rnd.choice(['bytes', 'bytes', 'bytes', 'items', ''.join(rnd.choice(TOKEN.replace('=', '')) for _ in range(rnd.randint(1, 5)))])
         k = rnd.random()
+        if unit != 'bytes' and rnd.random() < 0.3:
+            # an other-range whose range-set itself contains '=' (RFC 9110 14.1.1: other-range = 1*VCHAR after the first '='): the unit
+            # is what precedes the FIRST '='
+            return f"{unit}={rnd.choice(['chapter=2', 'a=b=c', '=', '==1-2', 'x=1-2', '1-2='])}", unit, 'skip'
         if k < 0.4:
             a, b = num(), num()
             exp = (int(a), int(b)) if int(a) <= int(b) else 'bad'
